@@ -89,6 +89,27 @@ def applyOp (name : String) (A B : Aut) (params : Sexp) : Option (Option Aut × 
   | "minimise_map" => some (DFTA.minimiseWith (fun c => tup (.node "m" [] :: c)) A, A.accepts)
   | _ => none
 
+/-- for `minimise`: the congruence certificate (PS.DFTA.congruenceCert) of the final partition,
+    the hypothesis of theorem `C07_min_lang_cert`; `-` for the other operations -/
+def certOf (name : String) (A : Aut) (params : Sexp) : Sexp :=
+  let c0 := A.states.filter (fun q => decide (q ∉ A.finals))
+  let c1 := A.states.filter (fun q => decide (q ∈ A.finals))
+  let cls : Option (List QV × List QV) := match params with
+    | .list [.list a, .list b] => match allSome decQ a, allSome decQ b with
+      | some x, some y => some (x, y)
+      | _, _ => none
+    | _ => some (c0, c1)
+  match name, cls with
+  | "minimise", some (x, y) =>
+    match DFTA.minimiseState A x y (A.states.length + 2) with
+    | some st => ofBool (DFTA.congruenceCert A (fun q => tup (DFTA.clsTuple st q)) (DFTA.allStates A))
+    | none => .atom "-"
+  | "minimise_map", _ =>
+    match DFTA.minimiseState A c0 c1 (A.states.length + 2) with
+    | some st => ofBool (DFTA.congruenceCert A (fun q => tup (.node "m" [] :: DFTA.clsTuple st q)) (DFTA.allStates A))
+    | none => .atom "-"
+  | _, _ => .atom "-"
+
 def handle : Sexp → Option Sexp
   | .list [.atom "c07.op", name, a, b, params, depth, .list alpha, .list xtrees, .list reads] => do
       let name ← name.string?
@@ -112,7 +133,7 @@ def handle : Sexp → Option Sexp
           bitString (xt.map R.accepts), bitString (xt.map spec),
           .list (rd.map (fun lq => match R.read lq.1 lq.2 with
             | some q => encQ q
-            | none => .atom "none"))])
+            | none => .atom "none")), certOf name A params])
   | _ => none
 
 end PS.C07
